@@ -14,6 +14,7 @@ import os
 import re
 
 from .lexer import Tok, lex, match_close, match_open, text_of, LexError
+from . import ppcond
 
 
 class ExtractionBreak(Exception):
@@ -1324,6 +1325,9 @@ def extract_unit(repo, unit, shim_methods):
             if not os.path.exists(full):
                 raise ExtractionBreak(f"source file missing: {path}")
             src = open(full, encoding='utf-8', errors='replace').read()
+            if not os.environ.get('VERIF_NO_PPCOND'):
+                # only the arms of #if/#else the real compiler compiles (vt/ppcond.py)
+                src = ppcond.strip_inactive(repo, path, src)
             try:
                 cache[path] = (lex(src), src)
             except LexError as e:
